@@ -41,9 +41,9 @@ def run(ctx):
     ctx.prove(extra=["PathRun"])
     coq_cases, metas = [], []
     for gi_ in range(ctx.budget(45, 400)):
-        gd = P.gen_invertible_graph(rng, ctx.budget(300, 2500))
-        cfgd = G.gen_config(rng, gd)
         stress = gi_ % 4 == 3
+        gd = P.gen_invertible_graph(rng, ctx.budget(800 if stress else 300, 2500))
+        cfgd = G.gen_config(rng, gd)
         if stress:
             cfgd["batch_size"] = rng.choice([1, 2, 3])       # the internal BFS runs batched ...
         graph = G.make_graph(gd, cfgd)
@@ -67,6 +67,9 @@ def run(ctx):
             # ... and is cut by the size limit exactly at / just below the size of a later layer (the limit is reached part-way through the batches)
             depth = None
             explore = max(2, rng.choice([len(l) for l in layers[2:]]) - rng.choice([0, 0, 1]))
+            grow = [k for k in range(2, len(layers)) if len(layers[k]) > len(layers[k - 1]) + 1]
+            if grow and rng.random() < 0.6:
+                explore = len(layers[rng.choice(grow)]) - 1 if rng.random() < 0.3 else len(layers[rng.choice(grow) - 1]) + 1   # cut as early as possible inside a growing layer
             ctx.count("stress_batched_size_limited")
         kw = {}
         if depth is not None:
@@ -107,6 +110,17 @@ def run(ctx):
             fr, _ = P.res_path_lit(lambda: cayleypy.find_path(G.make_graph(gd, cfgd), list(q), **kwj))
             if fr != r:
                 ctx.violation("property_fails", f"find_path answers {r} after earlier calls but {fr} on a fresh graph", case, True)
+        if stress and len(layers) >= 4:
+            # many more start states between D and 2D (implementation against the reference distances only; the model replays the queries above)
+            deff = eff_depth(kw)
+            ring = sorted(s for s, d in dist_to_c.items() if deff < d <= 2 * deff)
+            for q in rng.sample(ring, min(len(ring), ctx.budget(40, 200))):
+                r, _ = P.res_path_lit(lambda: cayleypy.find_path(graph, list(q), **kw))
+                ctx.count("fp_stress_ring_queries")
+                msg = check_fp(gd, dist_to_c, deff, q, r)
+                if msg:
+                    ctx.violation("property_fails", msg, {"graph": gd, "config": cfgd, "kwargs_per_call": [kw], "queries": [list(q)], "finder": "find_path"}, True)
+                    break
         ctx.case_seen({"graph": gd, "config": cfgd, "kwargs": kw, "queries": qs}, nontrivial)
         ctx.count("directed" if not ic else "undirected")
         coq_cases.append(f"(Build_fp_case {G.coq_gdesc(gd, graph)} {P.inv_mats_lit(graph)} {graph.batch_size} {clist(qlits)})")
